@@ -37,7 +37,7 @@ def run(chk):
 
     colls = []
     for _ in range(25 if not thorough else 250):
-        alpha = rng.choice(["A", "AC", "ACD", AA, "ü∆x"])
+        alpha = rng.choice(["A", "AC", "ACD", AA, "ü∆x", "aA-* ", "cC_.1"])     # case, gaps, blanks, punctuation, digits are ordinary characters
         n = rng.randint(1, 7)
         colls.append([rand_str(alpha, rng.choice([0, 1, 2, 5, 13, 40])) for _ in range(n)])
     # long strings: distances > 255 and > 65535 / weight
